@@ -45,3 +45,22 @@ NA["C10_unused"] = "NewRaft start-up harness not finished in this session (DESIG
 LEVELS["C10"] = {"ref": "4.10", "text": "Bounded symbolic verification of the real NewRaft (skipStartup) on arbitrary durable images: stable term, a log window with an optional configuration entry, 0-2 snapshots each of which may be unusable, plain or commit-tracking store with RestoreCommittedLogs; asserts that it returns, restores term/last log/newest usable snapshot/latest configuration and replays exactly the committed entries once.", "note": _STEP_NOTE + "Crash-closedness of the durable invariant (which images a crash can leave) is not decided; the image invariant is assumed. Real disk stores are outside."}
 
 LEVELS["C15"] = {"ref": "4.15", "text": "Bounded symbolic verification of the real FileSnapshotStore code over a file-system model: a crash before every file-system step of Create/Write/Close/Cancel/reaping, every combination of lost/kept un-synced directory operations (in-order prefix) and old/new/torn un-synced file data, then List/Open from a fresh store; plus bit rot of durable files.", "note": "Trusted: go/ssa, gosym, z3 and above all the FILE-SYSTEM MODEL (engine/sym/fs.go; rules listed in the evidence assumptions): it is the environment, not the code under test. os/bufio/json/crc64 calls are intrinsics over that model. Real file systems may be weaker (POSIX does not promise that fsync of a file persists its directory entry)."}
+
+# ---- round 4 extensions ----
+_CRASH = " Crash points: each durable model-store call (stable Set/SetUint64, StoreLogs, DeleteRange, StageCommitIndex, sink Close) is offered as 'process dies before this call'; the real NewRaft then runs on the stores."
+LEVELS["C10"]["text"] += " CRASH-CLOSED (round 4): appendEntries, requestVote, installSnapshot, takeSnapshot+compactLogs and restoreUserSnapshot x every crash point x the real NewRaft: the recovered server satisfies the representation invariant, keeps term/vote/newest complete snapshot/configuration and everything known committed or acknowledged."
+LEVELS["C10"]["note"] = _STEP_NOTE + _CRASH + " Each single store call is atomic (torn writes inside one call are outside); real disk stores are outside; installSnapshot states fall under known finding D3 where the follower's log lacks the snapshot's last entry."
+LEVELS["C06"]["text"] += " CRASH-SEQ (round 4): requestVote x crash at every stable-store write x real NewRaft x a second requestVote on the recovered server."
+LEVELS["C06"]["note"] = _STEP_NOTE + _CRASH
+LEVELS["C01"]["text"] += " Plus (round 4) the vote crash sequence: a vote granted before a crash at any point still excludes every other candidate of that term after the restart."
+LEVELS["C11"]["text"] += " Round 4: takeSnapshot session with the real FSM/main-loop goroutines, and installSnapshot / takeSnapshot+compactLogs x crash point x real NewRaft (never a half-installed snapshot, no compaction before durable, only a complete stream becomes durable)."
+LEVELS["C11"]["note"] = _STEP_NOTE + _CRASH + " Snapshot bytes are an abstract content id; io.Copy moves a symbolic byte count."
+LEVELS["C20"]["text"] += " Round 4: restoreUserSnapshot x crash point x real NewRaft (restart entirely before or entirely after the restore)."
+LEVELS["C02"]["text"] += " Round 4: processLogs with failing log-store reads followed by the next commit advance (no index handed to the FSM twice)."
+LEVELS["C08"]["text"] += " Round 4: the applyCh case with the transfer-in-progress flag volatile (every atomic load returns an arbitrary value: over-approximates the transfer goroutine's asynchronous stores), and processLogs read faults."
+LEVELS["C13"]["text"] += " Round 4: heartbeat rounds across a re-addressing of the follower by the real startStopReplication."
+LEVELS["C18"]["text"] += " Round 4: a runLeader activation whose no-op cannot be stored (gain and loss both announced, in order)."
+LEVELS["C19"]["text"] += " Round 4: a failing backend DeleteRange may have removed a prefix of the range (non-transactional backend)."
+LEVELS["C19"]["note"] = "Trusted: go/ssa, gosym, z3, the model backend (harness/m_stores.go). Backend StoreLogs failures are atomic, DeleteRange failures may be partial (prefix removed); window base is a multiple of 12. Outside: capacities > 4, partial StoreLogs failure, caller mutating stored *Log."
+LEVELS["C15"]["text"] += " Round 4: io.CopyN is modelled exactly (prefix / whole / whole+EOF), so a checksum computed over only part of the state file is seen."
+LEVELS["C09"]["text"] += " Round 4: the replication routines' cached peer records carry an arbitrary (possibly stale) suffrage, as startStopReplication leaves them after a promotion/demotion."
